@@ -43,6 +43,8 @@ structure SetCfg where
   loaders       : List (List (Bytes × Bytes)) := [[]]
   trimBlocks    : Bool := false
   lstripBlocks  : Bool := false
+  /-- the package-level default every execution starts with (`SetAutoescape`) -/
+  autoescape    : Bool := true
   regTags       : List Bytes
   regFilters    : List Bytes
 
